@@ -133,39 +133,40 @@ def reference_matrix():
     return res
 
 
+PRELUDE = ('TYPE @t\n{\n  "a": 1,\n  "b": @u // {optional: true}\n}\n'
+           'TYPE @u\n{\n  "c": @t // {optional: true}\n}\n'
+           'ENUM @e\n[\n  "a", // first\n  "b"\n]\n'
+           'TAG @api // Api\n  Description\n    tag text\n'
+           'MACRO @m\n(\n  404 any\n)\n')
 BLOCKS = [
     'URL /api/{lang}\n  Path\n  {\n    "lang": "en"\n  }\n  GET\n    200 any\n',
     'URL /api/{lang}/rpc\n  Protocol json-rpc-2.0\n  Method listIt // m\n    Params\n    {\n      "p": 1\n    }\n    Result\n    [@t]\n',
     'GET /api/{lang}/items/{id}\n  Path\n  {\n    "id": 1\n  }\n  200 @t\n',
     'POST /api/{lang}\n  Request @t\n  200 [@t]\n',
-    'TYPE @t\n{\n  "a": 1,\n  "b": @u\n}\n',
-    'TYPE @u\n{ // {allOf: "@t"}\n  "c": "x"\n}\n',
-    'TYPE @u regex\n  /a+/\n',
-    'TYPE @u any\n',
-    'TYPE @u\n{\n  "c": [@t] // {optional: true}\n}\n',
-    'ENUM @e\n[\n  "a", // first\n  "b"\n]\n',
-    'TYPE @w\n{\n  "e": "a", // {enum: @e}\n  "t": @t | @u\n}\n',
+    'TYPE @x\n{ // {allOf: "@t"}\n  "c": "x"\n}\nGET /x\n  200 @x\n',
+    'TYPE @rx regex\n  /a+/\nGET /rx/{lang}\n  200 @rx\n',
+    'TYPE @an any\nPOST /an\n  Request @an\n  200 @an\n',
+    'TYPE @w\n{\n  "e": "a", // {enum: @e}\n  "t": @t | @u\n}\nGET /w\n  200 @w\n',
     'SERVER @s // srv\n  BaseUrl "https://x.example/{lang}"\n',
     'INFO\n  Title "T"\n  Version 1\n  Description\n    some text\n',
-    'TAG @api // Api\n  Description\n    tag text\n',
     'GET /other/{lang}\n  Tags @api\n  200 any\n',
-    'MACRO @m\n(\n  404 any\n  Path\n  {\n    "lang": "m"\n  }\n)\n',
     'GET /mac/{lang}\n  PASTE @m\n  200 any\n',
-    'URL /api/{lang}\n  DELETE\n    200 any\n',
-    'URL /api/{locale}\n  PUT\n    200 any\n',
-    'URL /p/{a}\n  Path\n    @t\n  GET\n    200 any\n',
+    'URL /api/{lang}/more\n  DELETE\n    200 any\n',
+    'URL /apj/{locale}\n  Path\n  {\n    "locale": "x" // {optional: true}\n  }\n  PUT\n    200 any\n',
+    'URL /p/{a}/{b}\n  Path\n    @t\n  GET\n    200 any\n',
     'GET /api/{lang}/rpc\n  200 any\n',
-    'URL /q\n  GET\n    Query "a=1"\n    {\n      "a": 1\n    }\n    200\n      Headers\n      {\n        "X": "y"\n      }\n      Body @w\n',
-    'TYPE @t\n[1, 2]\n',
-    'GET /h\n  Request\n    Headers @t\n    Body any\n  200 empty\n',
-    'PASTE @m\n',
-    'MACRO @m2\n(\n  URL /api/{lang}/deep/{z}\n  (\n    Path\n    {\n      "z": 2\n    }\n    PATCH\n      200 @u\n  )\n)\nPASTE @m2\n',
+    'URL /q\n  GET\n    Query "a=1"\n    {\n      "a": 1\n    }\n    200\n      Headers\n      {\n        "X": "y"\n      }\n      Body @t\n',
+    'GET /h\n  Request\n    Headers\n    { // {allOf: "@t"}\n    }\n    Body any\n  200 empty\n',
+    'PASTE @m2\nMACRO @m2\n(\n  URL /api/{lang}/deep/{z}\n  (\n    Path\n    {\n      "z": 2\n    }\n    PATCH\n      200 @u\n  )\n)\n',
     'TYPE @list\n  [@t]\nGET /l\n  200 @list\n',
-    'TYPE @or\n  @t | @u | @e\nGET /or\n  200 @or\n',
-    'GET /api/{lang}/x/{lang}\n  200 any\n',
-    'URL /api/{lang}/rpc2/{x}\n  Protocol json-rpc-2.0\n  Tags @api\n  Method a.b\n    Result\n      @u\n',
-    'URL /tags\n  Tags @api @nosuch\n  GET\n    200 any\n',
-    'GET /api/{lang}/items/{id}/sub/{k}\n  Path @u\n  200 any\n',
+    'TYPE @or\n  @t | @u | @rx2\nTYPE @rx2 regex\n  /b/\nGET /or\n  200 @or\n',
+    'URL /api/{lang}/rpc2/{x}\n  Protocol json-rpc-2.0\n  Method a.b\n    Tags @api\n    Result\n      @u\n',
+    'URL /{lang}/rpc3\n  Protocol json-rpc-2.0\n  Method ping\n    Result\n      "pong"\n',
+    'GET /{lang}/status\n  Path\n  {\n    "lang": "acme"\n  }\n  200 any\n',
+    'GET /api/{lang}/items/{id}/sub/{k}\n  Path\n  {\n    "k": 3\n  }\n  200 any\n',
+    'URL /api/{lang}/items/{id}/rpc4\n  Protocol json-rpc-2.0\n  Method m4\n    Params\n      [1]\n    Result\n      {}\n',
+    'TAG @sub\n  TAG @subsub\nGET /t\n  Tags @sub @subsub @api\n  200 any\n',
+    'URL /u\n  Tags @api\n  GET\n    Tags @api\n    200 any\n  POST\n    200 any\n',
 ]
 
 
@@ -175,13 +176,13 @@ def block_pairs(thorough, rnd):
     res = []
     n = len(BLOCKS)
     for i in range(n):
-        res.append(("b%d" % i, "JSIGHT 0.3\n" + BLOCKS[i]))
+        res.append(("b%d" % i, "JSIGHT 0.3\n" + PRELUDE + BLOCKS[i]))
         for j in range(n):
             if i != j:
-                res.append(("b%d-%d" % (i, j), "JSIGHT 0.3\n" + BLOCKS[i] + BLOCKS[j]))
+                res.append(("b%d-%d" % (i, j), "JSIGHT 0.3\n" + (PRELUDE if (i + j) % 3 else "") + BLOCKS[i] + BLOCKS[j] + ("" if (i + j) % 3 else PRELUDE)))
     for _ in range(6000 if thorough else 600):
         k = rnd.sample(range(n), rnd.choice([3, 3, 4, 5]))
-        res.append(("b" + "-".join(map(str, k)), "JSIGHT 0.3\n" + "".join(BLOCKS[x] for x in k)))
+        res.append(("b" + "-".join(map(str, k)), "JSIGHT 0.3\n" + PRELUDE + "".join(BLOCKS[x] for x in k)))
     return res
 
 
